@@ -25,7 +25,8 @@ CHECKS = {
         "pkgs": ["./pkg/netceptor", "./pkg/backends", "./pkg/framer"],
         "bounds": "one arbitrary datagram before the handshake, and one after a correct handshake, drawn from: raw bytes 0..2, data packet with "
                   "arbitrary 36-byte header, routing update / service advertisement with every field arbitrary (strings <= 1 byte, maps <= 2 "
-                  "entries, embedded record nil or present), reject; routing-table computation over 3 nodes with arbitrary real costs, unwind 12",
+                  "entries, embedded record nil or present), reject; routing-table computation over 3 nodes with arbitrary real costs, unwind 12; "
+                  "stream backends: every byte stream of <= 5 bytes in 1-2 chunks through the real framer (every 16-bit length prefix)",
         "assumptions": ["JSON bodies that fail to decode are represented by the decode-error path"],
         "outside": ["memory exhaustion by large frames", "scheduling between several sessions", "kernel / websocket library"],
         "level_text": "Bounded symbolic execution of the real runProtocol loop (with its reader/writer/initial-message goroutines as engine "
@@ -94,25 +95,35 @@ CHECKS = {
     "C01": {
         "pkgs": ["./pkg/netceptor", "./pkg/tickrunner"],
         "bounds": {
-            "quick": "every directed graph over 3 nodes (6 edges present/absent, arbitrary real costs in (0,1000]), unwind 40; update->knowledge->table "
+            "quick": "every directed graph over 3 nodes (6 edges present/absent, arbitrary real costs in (0,1000]), unwind 40; every UNDIRECTED graph "
+                     "over 4 nodes (6 links, arbitrary costs); update->knowledge->table "
                      "pipeline over {A,B,C} with arbitrary costs; removal of one of two connections over every 3-node graph; one idle-monitor pass "
-                     "with arbitrary reception times; tick runner with 1-2 requests of arbitrary delay 0..1h",
-            "thorough": "as quick with every directed graph over 4 nodes (12 edges) and 1-3 tick requests",
+                     "with arbitrary reception times; tick runner with 1-2 requests of arbitrary delay 0..1h; MESH: 3 real nodes running the real "
+                     "runProtocol over in-order in-memory sessions, every initial topology (8) with arbitrary positive link costs, brought up link by link, "
+                     "then 1 event of {none, link lost, link added, node stopped, node restarted under its name and re-attached link by link}, then the "
+                     "pending requests and 2 route-update periods; one (run-to-block) interleaving",
+            "thorough": "as quick with every directed graph over 4 nodes (12 edges), 1-3 tick requests, and 2 consecutive mesh events",
         },
         "no_native": ["Verif_C01_tick_coalesce"],
         "assumptions": ["link costs are positive reals <= 1000 (float rounding not modelled: costs encoded as reals)",
-                        "every node that appears as a neighbour has its own entry in the knowledge (its own update has arrived)"],
-        "outside": ["convergence of the DISTRIBUTED protocol (that every node's knowledge becomes the real topology within k periods under every "
-                    "delay and interleaving) - liveness over unbounded histories, not decided", "graphs over more than 4 nodes", "timing constants",
+                        "every node that appears as a neighbour has its own entry in the knowledge (its own update has arrived) - single-node harnesses only",
+                        "mesh harness: the two tick runners of each node are replaced by a pump that serves a request at the next round (tickrunner.Run is "
+                        "decided separately); update IDs are fixed distinct strings"],
+        "outside": ["convergence of the distributed protocol beyond the mesh bound: more than 3 live nodes, more than 2 events, delivery interleavings "
+                    "other than run-to-block (each link in order, nodes served round-robin), message delay across a period boundary",
+                    "graphs over more than 4 nodes", "timing constants",
                     "tick runner timing is checked on the durations the code passes to time.After, not on a real clock"],
         "level_text": "Bounded symbolic execution of the real updateRoutingTable (with the real go-priority-queue and container/heap) against an "
                       "independent Bellman-Ford reference for every graph within the bound: table = exactly the reachable nodes, reported cost = "
                       "least cost, next hop = direct neighbour on a least-cost path (hence loop-free), termination; plus the bookkeeping steps "
-                      "(update handling, connection removal, idle monitor, tick runner) that keep knowledge and table current.",
+                      "(update handling, connection removal, idle monitor, tick runner) that keep knowledge and table current; and a 3-node mesh of "
+                      "real nodes (real runProtocol, flooding, handlers) whose tables are compared with the reference after every bounded event history, "
+                      "for every assignment of link costs.",
         "level_note": _TRUST,
     },
     "C20": {
-        "pkgs": ["./pkg/utils"],
+        "pkgs": ["./pkg/utils", "./pkg/netceptor"],
+        "no_native": ["Verif_C20_only_the_leaf_names_the_peer"],
         "bounds": {
             "quick": "0..2 node IDs; one ID: lengths {0,1,2,50,110..116,127,128,129,200,240..244,255,256,300}, two IDs: lengths from {1,112,113,128,256}; "
                      "first/last content byte arbitrary ASCII; 0..1 DNS name (2 bytes), 0..1 IPv4/IPv6 address (arbitrary bytes)",
@@ -131,9 +142,12 @@ CHECKS = {
         "pkgs": ["./pkg/workceptor"],
         "bounds": "one status rewrite (UpdateBasicStatus / UpdateFullStatus) of an arbitrary old record with a crash before each of its file-system "
                   "operations (crash index 1..8); one acknowledged command unit and one acknowledged remote unit followed by 1-2 updates with a crash "
-                  "at any operation, then the real restart scan; restart on a record in each of the 5 states; status query for a unit only on disk",
+                  "at any operation, then the real restart scan; restart on a record in each of the 5 states; status query for a unit only on disk; "
+                  "restart scan of a Pending/Running unit while its live runner rewrites the record (2 pre-emptions, every file-system operation a "
+                  "scheduling point)",
         "no_native": ["Verif_C04_rewrite_crash_index", "Verif_C04_acked_unit_survives", "Verif_C04_remote_binding_survives"],
         "crash_native": {"Verif_C04_rewrite_crash_index": "native/c04_crash.py"},
+        "schedule_harnesses": ["Verif_C04_rescan_while_runner_writes"],
         "assumptions": ["file-system model: every state-changing operation (create, truncate, write, mkdir, remove) is atomic (process kill, not power loss)",
                         "unit IDs fixed by the harness (randomness stubbed)"],
         "outside": ["the detached runner process and real process signalling", "fsync / power loss", "kernel-level atomicity of a single write",
@@ -148,7 +162,7 @@ CHECKS = {
         "pkgs": ["./pkg/workceptor"],
         "bounds": "2 independent writers + 1 reader on one status file, and 2 daemon goroutines sharing one unit + the runner process, every "
                   "file-system operation a scheduling point, 2 pre-emptions; arbitrary numeric increments",
-        "schedule_harnesses": ["Verif_C14_rmw_serialisable", "Verif_C14_shared_unit"],
+        "schedule_harnesses": ["Verif_C14_rmw_serialisable", "Verif_C14_shared_unit", "Verif_C14_rescan_while_runner_writes"],
         "assumptions": ["lockedfile model: exclusive advisory lock per open file description, blocking, released on close"],
         "outside": ["real flock semantics on network file systems", "more than 3 concurrent actors", "schedules needing more than 2 pre-emptions"],
         "level_text": "Bounded symbolic execution with schedule exploration of the real UpdateFullStatus/UpdateBasicStatus/Load/Save on the "
@@ -160,11 +174,11 @@ CHECKS = {
         "bounds": "two allocations with an ARBITRARY 8-character identifier stream against an index and a data directory holding other units (at most 3 "
                   "collisions in a row); two concurrent allocations drawing the same identifier, 2 pre-emptions; release (forced or not, removal "
                   "failing or not); restart on a command-unit record in each of the 5 states with arbitrary output size, then release",
-        "no_native": ["Verif_C13_unique_id"],
+        "no_native": ["Verif_C13_unique_id", "Verif_C13_cancel_stops_the_process"],
         "schedule_harnesses": ["Verif_C13_concurrent_allocation"],
         "assumptions": ["processes are not modelled: exec.Cmd.Start fails, no runner process writes concurrently"],
         "outside": ["status regressions caused by the detached runner process racing with the daemon", "kubernetes / python units",
-                    "real process signalling on cancel", "more than two concurrent submitters"],
+                    "real process signalling on cancel (the cancel handler is run against a recording model of os.Process)", "more than two concurrent submitters"],
         "level_text": "Bounded symbolic execution of generateUnitID/AllocateUnit (arbitrary random stream, index and directory pre-state, and two "
                       "concurrent callers under every schedule in the bound), BaseWorkUnit.Release and the restart path over the file-system model: "
                       "IDs and directories are never shared, a successful release removes files and index entry, a restart never moves a unit to an "
@@ -203,15 +217,20 @@ CHECKS = {
         "pkgs": ["./pkg/workceptor"],
         "bounds": "output written in up to 3 chunks of 0..2, 0..2 and 0..1 arbitrary bytes, the file present or not when streaming starts, every start "
                   "offset 0..size+1, the unit recorded finished (succeeded or failed) with a size equal to or larger than what is stored; reader "
-                  "polls interleaved with the producer at 5 points",
+                  "polls interleaved with the producer at 5 points; REMOTE MIRROR: finished remote unit with 0..3 arbitrary output bytes, 0..len already "
+                  "stored locally, every chunking of header line and data (header alone or with the first k bytes, then byte by byte), up to 2 link "
+                  "failures (error or clean end of stream) at any chunk boundary, 0..1 refused connection attempts, 12 one-second timer steps",
         "common": {"native_timeout": 300, "witnesses": 1},
+        "no_native": ["Verif_C05_remote_mirror"],
         "assumptions": ["timers fire only when every goroutine is blocked (poll intervals are not measured)",
                         "the runner records the final StdoutSize correctly (C13/C04)"],
-        "outside": ["the remote mirror (monitorRemoteStdout / monitorRemoteStatus): it needs a live netceptor.Conn, which cannot be constructed in the "
-                    "model - not decided", "negative start offsets", "outputs longer than 5 bytes and reads shorter than the data available"],
+        "outside": ["the status half of the remote mirror (monitorRemoteStatus) and the transport below connectToRemote (a model of the remote control "
+                    "service stands in for netceptor.Conn)", "remote units still running while mirrored", "negative start offsets", "outputs longer than 5 bytes and reads shorter than the data available"],
         "level_text": "Bounded symbolic execution of the real GetResults reader goroutine (with its stat-watcher) over the file-system model with a "
                       "growing output file: the bytes delivered are exactly file[offset:], the stream stays open while the unit runs or while "
-                      "recorded output is still missing, and ends once the unit is finished and everything recorded was sent.",
+                      "recorded output is still missing, and ends once the unit is finished and everything recorded was sent; and of the real "
+                      "monitorRemoteStdout against a model of the remote control service: at every (re)connection the local copy is a prefix of the "
+                      "remote output and the transfer resumes at its end, and it ends equal to the remote output.",
         "level_note": _TRUST,
     },
     "C08": {
@@ -221,7 +240,9 @@ CHECKS = {
                      "valid command; built-in commands status/ping/traceroute/connect/reload/unknown as JSON lines through the real session "
                      "loop with every looked-up field absent or of each JSON type, and the command field missing or of a wrong type; work "
                      "subcommands (9 spellings) as JSON with unit IDs {known, disk-only, unknown, .., ., empty, ../x, id/status, a/b} or of any JSON "
-                     "type, startpos/signature/node/worktype of any JSON type; plain-text work commands of up to 3 tokens from a 15-word vocabulary",
+                     "type, startpos/signature/node/worktype of any JSON type; plain-text work commands of up to 3 tokens from a 15-word vocabulary; "
+                     "two requests on one session (first: any JSON shape of status/ping/connect/unknown or a plain line; second: a well-formed built-in "
+                     "request) with the second answer compared to a fresh session's",
             "thorough": "as quick with request lines of 0..5 bytes and plain-text work commands of up to 4 tokens",
         },
         "common": {"maxpaths": 400000, "witnesses": 1},
@@ -241,7 +262,7 @@ CHECKS = {
         "bounds": "one relay direction with any script of <= 3 reads of 0..2 arbitrary bytes each (data together with EOF/error allowed) into a "
                   "destination whose 1st or 2nd write may come up short or fail; both directions through BridgeConns with 0..2 bytes each; Conn "
                   "read/write/close delegation with <= 3 bytes; acceptor first-byte check for every first byte value",
-        "no_native": ["Verif_C03_accept_first_byte"],
+        "no_native": ["Verif_C03_accept_first_byte", "Verif_C03_dialled_conn_peer_finishes_first"],
         "assumptions": ["quic-go provides a reliable ordered stream (its behaviour under loss, duplication, reordering and re-routing is TRUSTED, not decided)"],
         "outside": ["QUIC reliability, congestion control and path changes (quic-go)", "multi-hop loss schedules", "streams longer than the bound",
                     "controlsvc connect / tcp_proxy end-to-end runs (they use BridgeConns, which is decided)"],
@@ -255,8 +276,10 @@ CHECKS = {
         "bounds": "0..2 presented certificates (each parsing or not) x 0..2 pins of length {28,32,48,64,5,0,33} with arbitrary bytes x chain verdict x "
                   "receptor names {decode error, none, [ex], [ot], [ot,ex,e]} x DNS/receptor mode x server/client/invalid role x expected name "
                   "{ex, empty}; client profile {insecure or not, pin or not} x mode; mutual-TLS listener with claimed node in {N, NN, N:x, C:N, :, N:} "
-                  "x certificate name in 8 values x pin or not",
-        "no_native": ["Verif_C09_verify_decision", "Verif_C09_client_config", "Verif_C09_listener_peer_identity", "Verif_C09_verifier_reuse"],
+                  "x certificate name in 8 values x pin or not; tls-server profile (client certificates required, CA bundle, pin none/matching/other, "
+                  "TLS 1.2/1.3) through the real PrepareTLSServerConfig and listen() x claimed node in 3 values x certificate name in 5 values",
+        "no_native": ["Verif_C09_verify_decision", "Verif_C09_client_config", "Verif_C09_listener_peer_identity", "Verif_C09_verifier_reuse",
+                      "Verif_C09_profile_to_listener"],
         "assumptions": ["crypto/x509 (ParseCertificate, Certificate.Verify, CertPool), crypto/tls (Config.Clone), sha256/sha512 and utils.ReceptorNames are "
                         "verdict models: their answers are free variables, the arguments receptor passes to them are captured and checked",
                         "QUIC transport stubbed for the listener harness (only the TLS configuration it receives is used)"],
